@@ -62,7 +62,14 @@ Definition check_case (c : case18) : report :=
       let pred :=
         if negb (Z.eqb cnt (Z.of_nat (List.length vals))) then Some "hist_count"
         else if negb (Z.eqb (sumZ cs) cnt) then Some "hist_buckets"
-        else if negb (nondecreasing (map snd pcts)) then Some "percentile_monotone" else None in
+        else if negb (nondecreasing (map snd pcts)) then Some "percentile_monotone"
+        else
+          (* the sum is the sum of the observations: whatever the order of the additions, it is within rounding of the
+             in-order binary64 sum (1e-9 relative to the total magnitude) *)
+          let mag := fold_left (fun a v => (a + PrimFloat.abs v)%float) vals 1%float in
+          let err := PrimFloat.abs (sum - hsum h)%float in
+          if PrimFloat.ltb (mag * 0x1.12e0be826d695p-30)%float err || negb (PrimFloat.eqb err err) && PrimFloat.eqb (hsum h) (hsum h)
+          then Some "hist_sum_exact" else None in
       let same := Z.eqb (hcount h) cnt && PrimFloat.eqb (hsum h) sum &&
                   list_eqb Z.eqb (counts h ++ [overflow h]) cs &&
                   forallb (fun pv => PrimFloat.eqb (percentile h (fst pv)) (snd pv)) pcts in
